@@ -1,6 +1,7 @@
 import Flatland.JsonUtil
 import Flatland.Scalar
 import Flatland.C04
+import Flatland.Spec.C04
 import Flatland.Generated.C04Tables
 open Lean Flatland.J
 namespace Flatland.Run.C04
@@ -114,6 +115,24 @@ def parseConv (j : Json) : Except String (Bool → Native → Option (Option Tok
     return (dec, key, tok)
   return fun dec x => (entries.find? fun e => e.1 == dec && e.2.1 == x).map (·.2.2)
 
+/-- the recorded part of `OpaqueStable`: an entry for the empty text is a failure; the text of every
+    recorded result is itself recorded, and converts to nothing or to a value with the same text -/
+def opaqueStableOn (T : Tables) (entries : List (Bool × Native × Option Tok)) : Bool :=
+  entries.all fun (dec, key, tok) =>
+    (if key == .str [] then tok.isNone else true) &&
+    match tok with
+    | none => true
+    | some t =>
+      let text := Flatland.Scalar.Spec.tokText t
+      match entries.find? (fun e => e.1 == dec && e.2.1 == .str (strip T text)) with
+      | none => false
+      | some (_, _, none) => true
+      | some (_, _, some t') => Flatland.Scalar.Spec.tokText t' == text
+
+def parseConvEntries (j : Json) : Except String (List (Bool × Native × Option Tok)) := do
+  (← arr j).mapM fun e => do
+    return (← bfld e "dec", ← parseNative (← fld e "key"), ← optOf parseTok (← fld e "tok"))
+
 def raiseName : Raise → String
   | .valueError => "ValueError"
   | .tableMiss => "HARNESS-TABLE-MISS"
@@ -139,7 +158,9 @@ def runScalar (j : Json) : Except String Json := do
   let reset := match r with
     | .ok res => if res.flag then setJson (setScalar E k (.str res.st.u)) else Json.null
     | .error _ => Json.null
-  return obj [("set", first), ("reset", reset)]
+  let entries ← parseConvEntries (fldD j "conv" (Json.arr #[]))
+  return obj [("set", first), ("reset", reset),
+              ("opaque_stable", Json.bool (opaqueStableOn Flatland.Generated.C04.pyTables entries))]
 
 open Flatland.C04 in
 partial def parseSchema (j : Json) : Except String Schema := do
